@@ -32,6 +32,7 @@ class MagnitudeUse(Exception):
 class Dim:
     exps: tuple = ()  # sorted ((base, Fraction), ...) without zero exponents
     any_dim: bool = False  # the AnyDimension instance
+    form: str = ""  # how the dimension is WRITTEN (energy vs force*length): `==` on SymPy dimensions is structural and tells two forms apart, equivalent_dims does not
 
     @staticmethod
     def of(**kw) -> "Dim":
